@@ -936,6 +936,9 @@ pub fn run(ctx: &Ctx, which: Which) -> (Acc, String, bool) {
     let wf_random: u64 = if matches!(which, Which::C03) { 0 } else { ctx.pick(120_000, 3_000_000) };
     let wf_total = small_asts.len() as u64 + wf_random;
     let gen_cfg = crate::ast::GenCfg::default();
+    // a share of the generated programs restart (`^~`) from arbitrary positions: else parts, later conditions,
+    // operands, list items (runs are step-bounded, the static checks do not run them)
+    let gen_cfg_reapply = crate::ast::GenCfg { allow_reapply: true, ..crate::ast::GenCfg::default() };
     // the repository's own scripts, whole and cut at every line break (prefixes and suffixes)
     let scripts: Vec<String> = {
         let mut v = vec![];
@@ -950,8 +953,31 @@ pub fn run(ctx: &Ctx, which: Which) -> (Acc, String, bool) {
         v
     };
     let script_total = scripts.len() as u64;
-    let total = ex_total + boundary_total + soup_total + fam_total + fixed_total + wf_total + script_total;
-    let acc = run_cases(ctx, total, |i, acc| {
+    let focus_len = ctx.pick(5usize, 6usize);
+    let focus_total = corpus::focus_count(focus_len);
+    let total = focus_total + ex_total + boundary_total + soup_total + fam_total + fixed_total + wf_total + script_total;
+    let acc = run_cases(ctx, total, |i0, acc| {
+        if i0 < focus_total {
+            let (src, name) = corpus::focus_seq(focus_len, i0);
+            acc.nontrivial += 1;
+            if i0 % 40_009 == 0 {
+                acc.sample(Json::s(format!("focused sequence ({}) {:?}", name, src)));
+            }
+            let kind = format!("focus-{}", name);
+            if ctx.only_case.is_some() {
+                println!("case input ({}): {:?}", kind, src);
+            }
+            match which {
+                Which::C03 => judge_c03(&src, &kind, acc),
+                Which::C04 => judge_c04(&src, &kind, acc),
+                Which::C05 => judge_c05(&src, &kind, acc),
+                Which::C06 => crate::props::c06::judge(&src, &kind, steps, acc),
+                Which::C07 => judge_c07(&src, &kind, steps, acc),
+            }
+            return;
+        }
+        let i = i0 - focus_total;
+        let total = total - focus_total;
         let (src, kind): (String, String) = if i < ex_total {
             let bi = offs.iter().rposition(|o| *o <= i).unwrap();
             let (l, g) = blocks[bi];
@@ -999,7 +1025,11 @@ pub fn run(ctx: &Ctx, which: Which) -> (Acc, String, bool) {
             (s, "boundary-literals".into())
         } else if i < ex_total + boundary_total + soup_total {
             let mut r = Rng::for_case(seed, i);
-            let s = if r.chance(3, 4) { corpus::token_soup(&mut r, ctx.pick(40, 200)) } else { corpus::char_soup(&mut r, ctx.pick(40, 120)) };
+            let s = match r.below(8) {
+                0..=4 => corpus::token_soup(&mut r, ctx.pick(40, 200)),
+                5 => corpus::literal_soup(&mut r),
+                _ => corpus::char_soup(&mut r, ctx.pick(40, 120)),
+            };
             acc.distinct.insert(fnv_str(&s));
             if i % 30_011 == 0 {
                 acc.sample(Json::s(format!("soup {:?}", s)));
@@ -1032,7 +1062,8 @@ pub fn run(ctx: &Ctx, which: Which) -> (Acc, String, bool) {
                 let s = if r.chance(1, 8) {
                     lookup_program(&mut r)
                 } else {
-                    crate::ast::rand_program(&mut r, depth, &gen_cfg).print()
+                    let cfg = if r.chance(1, 4) { &gen_cfg_reapply } else { &gen_cfg };
+                    crate::ast::rand_program(&mut r, depth, cfg).print()
                 };
                 acc.distinct.insert(fnv_str(&s));
                 if j % 20_011 == 0 {
@@ -1053,7 +1084,9 @@ pub fn run(ctx: &Ctx, which: Which) -> (Acc, String, bool) {
         }
     });
     let rule = format!(
-        "corpus: every sequence of token classes (33 classes, DESIGN Appendix B) of length 1..{} with gap fillers none/space/annotation up to length {} (space/none beyond){}, half of them re-spelled with alternative spellings = {} inputs; {}{} random token soups (<= {} tokens, bracket-balanced bias) and raw character soups; {} scaling families x sizes {:?}; fixed regression inputs; the repository's own tests/scripts/*.garnish whole and cut at every line break; for C04-C07 additionally every core-language AST of <= 3 nodes and random well-formed programs from the C01 generators, printed with minimal parentheses. distinct_nontrivial counts the enumerated class sequences, boundary programs, families and distinct soups.",
+        "corpus: every sequence up to length {} over four focused 10-token alphabets (conditionals, blocks and lists, expressions and apply forms, separators) = {} inputs; every sequence of token classes (33 classes, DESIGN Appendix B) of length 1..{} with gap fillers none/space/annotation up to length {} (space/none beyond){}, half of them re-spelled with alternative spellings = {} inputs; {}{} random token soups (<= {} tokens, bracket-balanced bias) and raw character soups; {} scaling families x sizes {:?}; fixed regression inputs; the repository's own tests/scripts/*.garnish whole and cut at every line break; for C04-C07 additionally every core-language AST of <= 3 nodes and random well-formed programs from the C01 generators, printed with minimal parentheses. distinct_nontrivial counts the enumerated class sequences, boundary programs, families and distinct soups.",
+        focus_len,
+        focus_total,
         l_full,
         l_gap,
         if blocks.iter().any(|b| b.0 == 5) { " plus length 5 without fillers" } else { "" },
